@@ -31,7 +31,22 @@ ExpectedRead(r) ==
 \* after the complete frames: end-of-stream at a frame boundary; when the peer died inside a
 \* frame either an error or end-of-stream (the statement only forbids surfacing a message)
 EndOK(r, g) == IF r.close = "mid" THEN g.k \in {"err", "eof"} ELSE g.k = "eof"
+(* A sequence of writes on one connection (Transport!WriteFrame / WriteRefuse): message i is sent[i] bytes of value 200 + i.
+   What the format can carry must be accepted (Abridged: multiples of four; Intermediate: anything); the peer receives
+   the announcement followed by the frames of exactly the accepted messages - a refused message leaves no byte behind. *)
+Carriable(m, n) == m = "intermediate" \/ n % 4 = 0
+Flat(ss) == LET RECURSIVE F(_, _)
+                F(lo, hi) == IF lo > hi THEN <<>> ELSE IF lo = hi THEN ss[lo]
+                             ELSE LET mid == (lo + hi) \div 2 IN F(lo, mid) \o F(mid + 1, hi)
+            IN F(1, Len(ss))
+SeqFrame(m, i, n) == (IF n = 0 /\ m = "abridged" THEN <<0>> ELSE FrameHeader(m, n)) \o [j \in 1..n |-> 200 + i]
+SeqOK(r) ==
+  /\ r.got = <<>> /\ Len(r.oks) = Len(r.sent)
+  /\ \A i \in 1..Len(r.sent) : Carriable(r.mode, r.sent[i]) => r.oks[i]
+  /\ r.wire = AnnBytes(r.mode) \o Flat([i \in 1..Len(r.sent) |-> IF r.oks[i] THEN SeqFrame(r.mode, i, r.sent[i]) ELSE <<>>])
+
 RunOK(r) ==
+  IF r.op = "writeseq" THEN SeqOK(r) ELSE
   IF r.op = "read"
     THEN LET e == ExpectedRead(r) IN
          /\ Len(r.got) = Len(e) + 1
@@ -43,6 +58,7 @@ RunOK(r) ==
 
 Kind(r) ==
   IF r.op = "write" THEN "write-framing"
+  ELSE IF r.op = "writeseq" THEN (IF \E i \in 1..Len(r.got) : r.got[i].k = "panic" THEN "panic" ELSE "write-sequence-framing")
   ELSE IF \E i \in 1..Len(r.got) : r.got[i].k = "panic" THEN "panic"
   ELSE IF \E i \in 1..Len(r.got) : r.got[i].k = "code" /\ i <= Len(r.sent) /\ r.codes[i] # "" /\ r.got[i].v # r.codes[i] THEN "wrong-code"
   ELSE IF r.close = "boundary" /\ r.got # <<>> /\ r.got[Len(r.got)].k = "err" THEN "error-on-clean-stream"
